@@ -3,6 +3,7 @@ import json, os
 from . import common
 from .cli import cli_family
 from .mcp import mcp_check
+from .det import det_check
 from .cgt import cgt_family, law_family, report_family, calendar_family, fx_family, dsl_family, misc_family, format_family, schwab_family, awards_family, combine, fam_list
 
 
@@ -154,6 +155,10 @@ def c19(tier, seed):
                    'admissible (date, price) results or failure; non-trivial = look-back hits and expected failures')
 
 
+def c16(tier, seed):
+    return det_check(tier, seed)
+
+
 def c20(tier, seed):
     return mcp_check(tier, seed)
 
@@ -166,7 +171,7 @@ def c11(tier, seed):
                    'non-trivial = ledgers with a cost event')
 
 
-PROPS = {'C20': c20, 'C18': c18, 'C19': c19, 'C17': c17, 'C15': c15, 'C13': c13, 'C14': c14, 'C08': c08, 'C04': c04, 'C07': c07, 'C01': c01, 'C02': c02, 'C03': c03, 'C05': c05, 'C06': c06, 'C09': c09, 'C10': c10, 'C11': c11, 'C12': c12}
+PROPS = {'C16': c16, 'C20': c20, 'C18': c18, 'C19': c19, 'C17': c17, 'C15': c15, 'C13': c13, 'C14': c14, 'C08': c08, 'C04': c04, 'C07': c07, 'C01': c01, 'C02': c02, 'C03': c03, 'C05': c05, 'C06': c06, 'C09': c09, 'C10': c10, 'C11': c11, 'C12': c12}
 
 
 def replay(prop, path):
